@@ -61,6 +61,10 @@ class ModelMixin2:
             return [(self.exc('ValueError', st, node, f'cannot unpack {len(val.items)} values into {n}'), st)]
         if isinstance(val, NoneV):
             return [(self.exc('TypeError', st, node, 'cannot unpack non-iterable NoneType object'), st)]
+        if isinstance(val, Const) and isinstance(val.v, str):
+            if n is None or len(val.v) == n:
+                return [(tuple(Const(ch) for ch in val.v), st)]
+            return [(self.exc('ValueError', st, node, f'cannot unpack {len(val.v)} characters into {n}'), st)]
         if isinstance(val, Ref) and val.kind == 'list':
             le: ListE = st.get(val.sym)
             if le.kind == 'lit':
@@ -125,6 +129,10 @@ class ModelMixin2:
                 if d.exact:
                     return IterSpec(len(d.items), len(d.items), [TupleV((a, b)) for a, b in d.items], None, 'dict.items')
                 return IterSpec(0, None, None, lambda s, k: [(TupleV((Unknown('key'), Unknown('value'))), s)], 'dict.items')
+            if v.kind == 'zip' and len(v.src.items) == 2 and isinstance(v.src.items[0], Ref) and v.src.items[0].kind == 'list' \
+                    and st.get(v.src.items[0].sym).kind == 'count' and st.get(v.src.items[0].sym).spec[1] == Const(1):
+                # zip(itertools.count(start), xs) is enumerate(xs, start)
+                return self.enumerate_spec(IterV('enumerate', v.src.items[1], st.get(v.src.items[0].sym).spec[0]), st, node)
             if v.kind == 'zip':
                 specs = [self.iter_spec(x, st, node) for x in v.src.items]
                 Raise = _Raise()
@@ -151,6 +159,8 @@ class ModelMixin2:
                     n = min(len(sp.exact) for sp in specs)
                     return IterSpec(n, n, [TupleV(tuple(sp.exact[i] for sp in specs)) for i in range(n)], None, 'zip')
                 return IterSpec(lo, hi, None, make, 'zip')
+        if isinstance(v, Ref) and v.kind == 'list' and st.get(v.sym).kind == 'count':
+            return IterSpec(2, None, None, lambda s, k: [(NumV(('count',)), s)], 'itertools.count', ordered=True)
         if isinstance(v, ExtV) and v.name in ('result:itertools.count', 'result:itertools.cycle', 'result:itertools.repeat'):
             # an endless supplier: it never ends a zip(); the numbers themselves are opaque
             return IterSpec(2, None, None, lambda s, k: [(NumV(('count',)), s)], v.name[len('result:'):], ordered=True)
@@ -183,6 +193,9 @@ class ModelMixin2:
 
         def make(s, k, v=v):
             return self.list_elem(v, s, k, node)
+        if le.kind in ('map', 'chain', 'set') and not le.items and le.lo == 0:
+            # a derived list without a single element alternative is empty
+            return IterSpec(0, 0, [], None, 'empty ' + le.kind, ordered=le.ordered)
         sp = IterSpec(le.lo, le.hi, None, make, self.describe(v, st), ordered=le.ordered)
         sp.listsym = v.sym
         desc = (st.mon.get('descend_of') or {}).get(v.sym)
@@ -368,6 +381,9 @@ class ModelMixin2:
                     visit_v(y)
                 if e.src:
                     visit(e.src)
+                if e.kind == 'count' and e.spec:
+                    for y in e.spec:
+                        visit_v(y)
             elif isinstance(e, ObjE):
                 for _, y in e.fields:
                     visit_v(y)
